@@ -137,12 +137,12 @@ TARGETS = [
     ("write_ht", "nomt/src/bitbox/writeout.rs", "write_ht", None, WRITEOUT_STEPS, True),
     ("truncate_wal", "nomt/src/bitbox/writeout.rs", "truncate_wal", None, WRITEOUT_STEPS, False),
     ("write_wal", "nomt/src/bitbox/writeout.rs", "write_wal", None, WRITEOUT_STEPS, False),
-    ("beatree_begin_sync", "nomt/src/beatree/mod.rs", "begin_sync", "SyncController", CTRL_STEPS, False),
-    ("beatree_wait_pre_meta", "nomt/src/beatree/mod.rs", "wait_pre_meta", "SyncController", CTRL_STEPS, False),
-    ("bitbox_begin_sync", "nomt/src/bitbox/mod.rs", "begin_sync", "SyncController", CTRL_STEPS, False),
-    ("bitbox_spawn_wal_writeout", "nomt/src/bitbox/mod.rs", "spawn_wal_writeout", "SyncController", CTRL_STEPS, False),
-    ("bitbox_wait_pre_meta", "nomt/src/bitbox/mod.rs", "wait_pre_meta", "SyncController", CTRL_STEPS, False),
-    ("bitbox_post_meta", "nomt/src/bitbox/mod.rs", "post_meta", "SyncController", CTRL_STEPS, False),
+    ("ctl_beatree_begin_sync", "nomt/src/beatree/mod.rs", "begin_sync", "SyncController", CTRL_STEPS, False),
+    ("ctl_beatree_wait_pre_meta", "nomt/src/beatree/mod.rs", "wait_pre_meta", "SyncController", CTRL_STEPS, False),
+    ("ctl_bitbox_begin_sync", "nomt/src/bitbox/mod.rs", "begin_sync", "SyncController", CTRL_STEPS, False),
+    ("ctl_bitbox_spawn_wal_writeout", "nomt/src/bitbox/mod.rs", "spawn_wal_writeout", "SyncController", CTRL_STEPS, False),
+    ("ctl_bitbox_wait_pre_meta", "nomt/src/bitbox/mod.rs", "wait_pre_meta", "SyncController", CTRL_STEPS, False),
+    ("ctl_bitbox_post_meta", "nomt/src/bitbox/mod.rs", "post_meta", "SyncController", CTRL_STEPS, False),
 ]
 
 
